@@ -6,6 +6,7 @@ import TF.Proofs.Shah
 import TF.Proofs.XFieldInv
 import TF.Proofs.BFieldMore
 import TF.Proofs.XFieldMore
+import TF.Proofs.XFieldK
 import TF.Proofs.GenBridgeBField
 /-!
 # C01 — base and extension field arithmetic is exact and canonical
@@ -521,24 +522,55 @@ theorem xfe_get_cyclic_group_elements_bounded (g : XF.X3) (hg : TF.XFp.canon3 g)
   TF.XFp.x_cyclicGroup_some g hg m fuel hf
 example : TF.XFp.canon3 XF.one ∧ max 0 2 ≤ 1 + 1 := ⟨TF.XFInvProofs.canon3_one, by decide⟩
 
-/-- NOT YET PROVED (listed under `partial`): without a bound the extension-field loop ends for every non-zero `g`
-    (the multiplicative group of the field with `P³` elements is finite) -/
-def xfe_get_cyclic_group_elements_unbounded_terminates_statement : Prop :=
-  ∀ g : XF.X3, TF.XFp.canon3 g → g ≠ XF.zero → ∃ fuel l, XF.cyclicGroup fuel g none = some l
+/-- **`XFieldElement::get_cyclic_group_elements(None)` terminates for every non-zero element** and returns exactly the
+    powers up to the order.  The extension field `K = F_p[X]/(X³ − X + 1)` is a finite field with `P³` elements
+    (`TF/Proofs/XFieldK.lean`), so every non-zero `g` has a multiplicative order `k` — the least positive exponent with
+    `g^k = 1` (powers = repeated specification product `TF.Spec.xmul`), and `k ∣ P³ − 1`.  Without a bound the loop ends
+    after `max k 2 − 1` iterations (for every fuel `≥ max k 2 − 1`; `none` = still running) and returns the canonical
+    triples of `[1, g, g², …, g^(max k 2 − 1)]`: the whole cyclic group generated by `g` when `k ≥ 2`, `[1, 1]` for
+    `g = 1`.  Zero without a bound never returns (`xfe_get_cyclic_group_elements_exact`). -/
+theorem xfe_get_cyclic_group_elements_unbounded_exact (g : XF.X3) (hg : TF.XFp.canon3 g) (hnz : g ≠ XF.zero) :
+    ∃ k, 0 < k ∧ k ∣ P ^ 3 - 1 ∧ TF.XFp.xnpow (XF.toVal g) k = TF.Spec.xone ∧
+      (∀ j, 0 < j → j < k → TF.XFp.xnpow (XF.toVal g) j ≠ TF.Spec.xone) ∧
+      ∀ fuel, max k 2 ≤ fuel + 1 →
+        ∃ l, XF.cyclicGroup fuel g none = some l ∧ (∀ x ∈ l, TF.XFp.canon3 x) ∧ l.length = max k 2 ∧
+          l.map XF.toVal = (List.range (max k 2)).map (TF.XFp.xnpow (XF.toVal g)) :=
+  TF.XK.x_cyclicGroup_none g hg hnz
+example : TF.XFp.canon3 (XF.lift (bfe_new 281474976710656)) ∧ XF.lift (bfe_new 281474976710656) ≠ XF.zero ∧
+    XF.cyclicGroup 10 (XF.lift (bfe_new 281474976710656)) none =
+      some [XF.one, XF.lift (bfe_new 281474976710656), XF.lift (bfe_new 18446744069414584320),
+        XF.lift (bfe_new 18446462594437873665)] := by
+  refine ⟨⟨by unfold canon; decide, by unfold canon; decide, by unfold canon; decide⟩, by decide, by decide +kernel⟩
 
-/-- full statement of `FiniteField::batch_inversion` for `XFieldElement` (NOT YET PROVED, listed under `partial`): any
-    vector of non-zero elements is mapped to the vector of inverses -/
-def xfe_batch_inversion_statement : Prop :=
-  ∀ xs : List XF.X3, (∀ x ∈ xs, TF.XFp.canon3 x ∧ x ≠ XF.zero) →
-    ∃ rs, XF.batchInversion xs = some rs ∧ rs.length = xs.length ∧
-      ∀ i (h1 : i < rs.length) (h2 : i < xs.length), TF.XFp.canon3 rs[i] ∧ XF.mul rs[i] xs[i] = XF.one
+/-- the termination statement on its own: for every non-zero element some fuel suffices -/
+theorem xfe_get_cyclic_group_elements_unbounded_terminates (g : XF.X3) (hg : TF.XFp.canon3 g) (hnz : g ≠ XF.zero) :
+    ∃ fuel l, XF.cyclicGroup fuel g none = some l := by
+  obtain ⟨k, _, _, _, _, h⟩ := xfe_get_cyclic_group_elements_unbounded_exact g hg hnz
+  obtain ⟨l, hl, _⟩ := h (max k 2) (by omega)
+  exact ⟨max k 2, l, hl⟩
+example : TF.XFp.canon3 (0, BF.one, 0) ∧ ((0, BF.one, 0) : XF.X3) ≠ XF.zero :=
+  ⟨⟨by unfold canon; decide, by unfold canon; decide, by unfold canon; decide⟩, by decide⟩
 
-/-- proved part of `batch_inversion` on the extension field: the empty vector is returned unchanged and a vector
-    containing zero panics (the model is tied to the crate by correspondence; the harness checks `r·x = 1` on every run) -/
-theorem xfe_batch_inversion_partial (xs : List XF.X3) :
-    XF.batchInversion [] = some [] ∧ (XF.zero ∈ xs → XF.batchInversion xs = none) :=
-  ⟨rfl, TF.XFp.x_batchInversion_zero xs⟩
-example : XF.zero ∈ [XF.one, XF.zero] := by decide
+/-- **`FiniteField::batch_inversion` for `XFieldElement`**: any vector of non-zero elements (canonical coefficient
+    words) is mapped to the vector of their inverses — same length, entry `i` is canonical, a two-sided inverse of
+    `xs[i]` for the word-level product `XF.mul`, and equal to what `XFieldElement::inverse` returns on `xs[i]`;
+    a vector containing zero panics; the empty vector is returned unchanged.  (The two loops are analysed for an
+    arbitrary multiplicative map into a field and instantiated with the embedding of canonical triples into
+    `F_p[X]/(X³ − X + 1)`, `TF/Proofs/XFieldK.lean`.) -/
+theorem xfe_batch_inversion_exact (xs : List XF.X3) :
+    ((∀ x ∈ xs, TF.XFp.canon3 x ∧ x ≠ XF.zero) →
+      ∃ rs, XF.batchInversion xs = some rs ∧ rs.length = xs.length ∧
+        ∀ i (h1 : i < rs.length) (h2 : i < xs.length), TF.XFp.canon3 rs[i] ∧ XF.mul rs[i] xs[i] = XF.one ∧
+          XF.mul xs[i] rs[i] = XF.one ∧ XF.inverse xs[i] = some rs[i]) ∧
+    (XF.zero ∈ xs → XF.batchInversion xs = none) ∧
+    XF.batchInversion [] = some [] :=
+  ⟨TF.XK.x_batchInversion_spec xs, TF.XFp.x_batchInversion_zero xs, rfl⟩
+example : (∀ x ∈ [XF.one, (0, BF.one, 0)], TF.XFp.canon3 x ∧ x ≠ XF.zero) ∧ XF.zero ∈ [XF.one, XF.zero] := by
+  refine ⟨fun x hx => ?_, by decide⟩
+  simp only [List.mem_cons, List.not_mem_nil, or_false] at hx
+  rcases hx with rfl | rfl
+  · exact ⟨TF.XFInvProofs.canon3_one, by decide⟩
+  · exact ⟨⟨by unfold canon; decide, by unfold canon; decide, by unfold canon; decide⟩, by decide⟩
 
 end TF.C01
 
